@@ -914,8 +914,13 @@ func (w *World) paramsMsg(op *Op, named Addr) sdk.Msg {
 		}
 		if signers == "" {
 			var ss []string
-			for _, i := range p.Signers {
-				ss = append(ss, w.acct(i).Bytes.String())
+			for k, i := range p.Signers {
+				a := w.acct(i).Bytes.String()
+				if p.UpperSigner > 0 && (p.UpperSigner-1)%len(p.Signers) == k {
+					a = strings.ToUpper(a) // the other legal spelling of the same address
+					w.Class("gov.ent-params-with-upper-case-signer")
+				}
+				ss = append(ss, a)
 			}
 			signers = strings.Join(ss, ",")
 		}
